@@ -12,6 +12,8 @@ pub struct Src {
 const IMPL_TRAITS: &[&str] = &[
     "PartialEq", "Eq", "PartialOrd", "Ord", "Hash", "Debug", "Display", "Pointer", "Borrow", "AsRef",
     "Serialize", "Deserialize",
+    // census of entry points (Props/TraitCensus.lean): which provided trait methods the crate overrides
+    "Clone", "RefCnt", "Default",
 ];
 
 fn line_of(s: Span) -> usize {
